@@ -199,7 +199,7 @@ def _plan(tier):
 
 def run(rep: Report):
     tier = rep.tier
-    opts = {"prove_timeout_ms": 10000 if tier == "quick" else 60000, "fork_timeout_ms": 3000, "seed": rep.seed, "scenario_wall_s": 200 if tier == "quick" else 900}
+    opts = {"prove_timeout_ms": 10000 if tier == "quick" else 60000, "fork_timeout_ms": 3000, "seed": rep.seed, "scenario_wall_s": 900 if tier == "quick" else 1800}
     run_plan(rep, _plan(tier), SCENARIOS, opts)
     rep.bounds = {"committee": "2 members x 1 atom (forces: one symbolic coordinate, one zero-spread, one fixed)", "min_delta": "(0,5]", "max_delta-min_delta": "[0,5]", "reference variance": "[1e-6,100]"}
     rep.assumptions = ["tanh/exp uninterpreted with true axioms (range, oddness, monotone, values at constant arguments within 1e-13, limits beyond 20 / -27)", "sqrt in np.std as non-negative root", "floats as exact reals; anchors proved to 1e-12 relative"]
